@@ -23,6 +23,7 @@ import (
 	"fmt"
 	"os"
 	"strconv"
+	"strings"
 	"sync"
 	"sync/atomic"
 	"testing"
@@ -37,6 +38,40 @@ import (
 	"verifharness/hx"
 	"verifharness/sim"
 )
+
+// consMissing counts the acknowledged records at or after the start position that the consumer has to return (all of
+// them, or under read_committed those that are not part of a transaction or whose transaction was committed) and that
+// no poll has returned yet, from the history logged so far.
+func consMissing(hist string, committed bool, start int64) int {
+	type rec struct {
+		part, off, txn int64
+	}
+	var recs []rec
+	outcome := map[int64]string{}
+	seen := map[[2]int64]bool{}
+	for _, t := range strings.Fields(hist) {
+		f := strings.Split(t, ":")
+		switch {
+		case f[0] == "D" && len(f) == 5:
+			recs = append(recs, rec{hx.Atoi(f[2]), hx.Atoi(f[3]), hx.Atoi(f[4])})
+		case f[0] == "Te" && len(f) == 4 && f[3] == "ok":
+			outcome[hx.Atoi(f[1])] = f[2]
+		case f[0] == "V" && len(f) == 5:
+			seen[[2]int64{hx.Atoi(f[1]), hx.Atoi(f[2])}] = true
+		}
+	}
+	n := 0
+	for _, r := range recs {
+		if r.off < start || seen[[2]int64{r.part, r.off}] {
+			continue
+		}
+		if committed && r.txn != 0 && outcome[r.txn] != "c" {
+			continue
+		}
+		n++
+	}
+	return n
+}
 
 func genCons(a hx.Args) {
 	r := hx.NewRng(a.Seed)
@@ -71,6 +106,9 @@ func (h *consHooks) OnFetchRecordUnbuffered(r *kgo.Record, polled bool) {
 func runCons(t *testing.T, tk []string) string {
 	if tk[0] != "cons" || len(tk) != 12 {
 		return "bad-op"
+	}
+	if os.Getenv("VERIF_CONS_WIRE") != "" {
+		fmt.Fprintf(os.Stderr, "WIRE begin %v\n", tk)
 	}
 	seed := uint64(hx.Atoi(tk[1]))
 	parts, brokers, committed := int(hx.Atoi(tk[2])), int(hx.Atoi(tk[3])), tk[4] == "1"
@@ -127,6 +165,9 @@ func runCons(t *testing.T, tk []string) string {
 			for _, rt := range req.Topics {
 				for _, rp := range rt.Partitions {
 					log.Add("Fq:%d:%d:%d:%d:%d", conn, rp.Partition, rp.FetchOffset, req.SessionID, req.SessionEpoch)
+					if os.Getenv("VERIF_CONS_WIRE") != "" {
+						fmt.Fprintf(os.Stderr, "WIRE req conn=%d sid=%d/%d p%d off=%d epoch=%d act=%d\n", conn, req.SessionID, req.SessionEpoch, rp.Partition, rp.FetchOffset, rp.CurrentLeaderEpoch, act)
+					}
 				}
 			}
 		}
@@ -156,6 +197,15 @@ func runCons(t *testing.T, tk []string) string {
 		if err := resp.ReadFrom(b.Src); err != nil {
 			log.Add("Wbad")
 			return
+		}
+		if os.Getenv("VERIF_CONS_WIRE") != "" { // debugging aid: every partition of every delivered fetch response
+			fmt.Fprintf(os.Stderr, "WIRE resp conn=%d err=%d sid=%d:", conn, resp.ErrorCode, resp.SessionID)
+			for _, rt := range resp.Topics {
+				for _, rp := range rt.Partitions {
+					fmt.Fprintf(os.Stderr, " p%d(code=%d hwm=%d bytes=%d leader=%d/%d)", rp.Partition, rp.ErrorCode, rp.HighWatermark, len(rp.RecordBatches), rp.CurrentLeader.LeaderID, rp.CurrentLeader.LeaderEpoch)
+				}
+			}
+			fmt.Fprintf(os.Stderr, " brokers=%d\n", len(resp.Brokers))
 		}
 		for _, rt := range resp.Topics {
 			for _, rp := range rt.Partitions {
@@ -550,6 +600,17 @@ func runCons(t *testing.T, tk []string) string {
 			empty++
 		} else {
 			empty = 0
+		}
+	}
+	// "eventually": when an acknowledged record the consumer must return is still missing after the quiet polls, the
+	// consumer gets six more (virtual) minutes -- longer than its periodic metadata refresh -- before the history ends
+	if consMissing(log.String(), committed, cfgStart) > 0 {
+		hx.St.Inc("scen.cons.records-missing-after-quiet-polls")
+		for i := 0; i < 900 && consMissing(log.String(), committed, cfgStart) > 0; i++ {
+			poll(400 * time.Millisecond)
+		}
+		if consMissing(log.String(), committed, cfgStart) == 0 {
+			hx.St.Inc("scen.cons.records-missing-arrived-within-six-minutes")
 		}
 	}
 	co.Close()
